@@ -11,7 +11,7 @@ trap 'rm -rf evidence; mv .cache/evidence.keep evidence; git -C $repo checkout -
 for id in $ids; do
   [ -f seeded/$id/patch.diff ] || continue
   props=$(python3 -c "import json;print(' '.join(json.load(open('seeded/$id/meta.json'))['caught_by']))")
-  git -C $repo apply seeded/$id/patch.diff || { echo "$id: patch does not apply"; continue; }
+  git -C $repo apply "$(pwd)/seeded/$id/patch.diff" || { echo "$id: patch does not apply"; continue; }
   for p in $props; do
     out=$(./scripts/check.sh "$p" quick 2>&1 | grep -E "^VIOLATION" | head -1)
     if [ -n "$out" ]; then echo "$id $p CAUGHT ${out#VIOLATION }"; else echo "$id $p MISSED"; fi
